@@ -165,3 +165,133 @@ Theorem async_failure_v0_makesyncer_refuted :
   s_latest (fst (step fx_without_announce w 0 r (init [] 0))) = 1.
 Proof. exact async_failure_v0_makesyncer_refuted. Qed.
 Print Assumptions async_failure_v0_makesyncer_refuted.
+
+(* ==================================================================================== *)
+(* Composition with the models that own the chain walk (C01) and the block fetch (C02).
+   C04's model walks POSITIONS h, h-1, .. (1 = oldest); the bridge (model/Compose_C04_C01.v)
+   is, for a chain [ch] of C01 (newest first, no block twice: chain_wf) of length n,
+       position p in 1..n  <->  CID  cid_of ch p = nth (n - p) ch,
+       stop / latest-sync position 0  <->  no stop (None),   cids = map (cid_of ch),
+   [answered w log] = the block requests of a C04 log that the publisher answered with the
+   block (C01's h_reqs counts exactly these), C1 / C2 / C4 = the three models, P4 = C04's
+   proofs.  Premises of the bridge: chain_wf; head position in range; stop position <= n and
+   (for a walk) <> head; the local store holds chain blocks only (positions in range); C01's
+   [avail] (every block of the segment is stored or served); NO depth limit (C04 models
+   none: C01's lim = None); strict advertisement selector and the prescribed hook. *)
+From Coq Require Import ZArith.
+From Model Require Import Compose_C04_C01.
+From Proofs Require Compose_C04_C01.
+Module PC := Proofs.Compose_C04_C01.
+Module P4 := Proofs.C04_SyncFailure.
+
+(* the positions C04 walks are C01's specified segment (also stop = head: nothing; stop = 0:
+   no latest sync; stop beyond the head: the whole chain from the head) *)
+Theorem walked_positions_are_c01_segment : forall ch h L0,
+  NoDup ch -> in_range ch h -> L0 <= length ch ->
+  cids ch (P4.need h L0) = C1.segment ch (cid_of ch h) (stop_of ch L0) None.
+Proof. exact PC.bridge_need. Qed.
+Print Assumptions walked_positions_are_c01_segment.
+
+(* (1) fault-free request script, any reachable syncer (SyOk, some address answers): the
+   hook order, the answered block requests, the store and the count that C04's abstract
+   [handle] produces for (head h, stop s, segment size seg) are exactly those of C01's
+   [handle] (ipld traversal + segment loop) -- hence the specified [segment] -- for EVERY
+   segment size *)
+Theorem abstract_walk_is_c01_walk : forall extra ch pub w seg h s sy n store,
+  C1.chain_wf C1.EPrev extra ch = true -> in_range ch h -> s <= length ch -> s <> h ->
+  Forall (in_range ch) store ->
+  C1.avail pub (cids ch store) (C1.segment ch (cid_of ch h) (stop_of ch s) None) = true ->
+  P4.wf_world w -> P4.SyOk w sy -> P4.HasGood w sy -> P4.clean n ->
+  let r := C4.handle C4.fx_fixed w seg h s None sy n store in
+  let o := C1.handle (C1.chain_world C1.EPrev extra ch pub) C1.VPrev (stop_of ch s) None
+                     (Z.of_nat seg) C1.HNominate (cid_of ch h) (cids ch store) in
+  C4.h_ok r = true /\ C1.h_err o = None /\
+  cids ch (C4.h_hooks r) = C1.h_hooks o /\
+  (exists reqs, answered w (rev (C4.n_log (C4.h_net r))) = answered w (rev (C4.n_log n)) ++ reqs /\
+                cids ch reqs = C1.h_reqs o) /\
+  cids ch (C4.h_store r) = C1.h_store o /\
+  C4.h_count r = C1.h_count o /\
+  C1.h_hooks o = C1.segment ch (cid_of ch h) (stop_of ch s) None.
+Proof. exact PC.abstract_walk_is_c01_walk_l. Qed.
+Print Assumptions abstract_walk_is_c01_walk.
+
+(* (2) ANY fault script (any faults at any requests, any syncer state, the code with or
+   without the fixes, any hook failure): C04's walk stores exactly a PREFIX (k blocks) of
+   C01's request order on top of the old store and nothing else; the block requests the
+   publisher answered are that prefix; the walk succeeds only if the prefix is the whole
+   order.  So verified_blocks_survive speaks about blocks of C01's segment. *)
+Theorem faulty_walk_is_prefix : forall fx extra ch pub w seg h s hf sy n store,
+  C1.chain_wf C1.EPrev extra ch = true -> in_range ch h -> s <= length ch -> s <> h ->
+  Forall (in_range ch) store ->
+  C1.avail pub (cids ch store) (C1.segment ch (cid_of ch h) (stop_of ch s) None) = true ->
+  let r := C4.handle fx w seg h s hf sy n store in
+  let o := C1.handle (C1.chain_world C1.EPrev extra ch pub) C1.VPrev (stop_of ch s) None
+                     (Z.of_nat seg) C1.HNominate (cid_of ch h) (cids ch store) in
+  exists k, k <= length (C1.h_reqs o) /\
+    cids ch (C4.h_store r) = rev (firstn k (C1.h_reqs o)) ++ cids ch store /\
+    (exists reqs, answered w (rev (C4.n_log (C4.h_net r))) = answered w (rev (C4.n_log n)) ++ reqs /\
+                  cids ch reqs = firstn k (C1.h_reqs o)) /\
+    (C4.h_ok r = true -> k = length (C1.h_reqs o)).
+Proof. exact PC.faulty_walk_is_prefix_l. Qed.
+Print Assumptions faulty_walk_is_prefix.
+
+(* ... and the prefix length IS the fault index when requests and exchanges coincide (one
+   address that answers, a publisher serving the IPNI path, no hook failure): the first i
+   requests answered, then a fault that fails a request outright ([hard]: status other than
+   404/403, failed request, rejected body, stall, cancellation) ==> the sync fails with
+   count 0 and has stored exactly the first i blocks of C01's request order *)
+Theorem fault_at_request_i_stores_first_i : forall extra ch pub w seg h s sy n store i f rest,
+  C1.chain_wf C1.EPrev extra ch = true -> in_range ch h -> s <= length ch -> s <> h ->
+  Forall (in_range ch) store ->
+  C1.avail pub (cids ch store) (C1.segment ch (cid_of ch h) (stop_of ch s) None) = true ->
+  PC.single_good w sy -> C4.n_cancelled n = false ->
+  C4.n_script n = repeat C4.FOk i ++ f :: rest -> hard f = true ->
+  let r := C4.handle C4.fx_fixed w seg h s None sy n store in
+  let o := C1.handle (C1.chain_world C1.EPrev extra ch pub) C1.VPrev (stop_of ch s) None
+                     (Z.of_nat seg) C1.HNominate (cid_of ch h) (cids ch store) in
+  i < length (C1.h_reqs o) ->
+  C4.h_ok r = false /\ C4.h_count r = 0 /\
+  cids ch (C4.h_store r) = rev (firstn i (C1.h_reqs o)) ++ cids ch store.
+Proof. exact PC.fault_at_request_i_l. Qed.
+Print Assumptions fault_at_request_i_stores_first_i.
+
+(* (2, C02 side) the one step where C04 abstracts C02: a block request whose C04 outcome is x
+   is, for C02's fetchBlock (symbolic instance), the answer [c02_answer x c b]: the genuine
+   content, a body b that does not hash to the CID, or no 200 answer.  fetchBlock commits
+   exactly (c, content) when x = 200-with-the-genuine-body and otherwise leaves the store
+   EXACTLY as it was (C02's bad_fetch_commits_nothing): C04's "a fetched block is stored at
+   once, a rejected answer stores nothing" *)
+Theorem fetch_step_refines_c02 : forall d resp reqs c bs x b,
+  C2.local_ok N C2.sym_hashes_to (C2.sym_links_of d) bs c = None ->
+  b <> c -> resp (length reqs) = c02_answer x c b ->
+  C2.fetch_block N C2.sym_hashes_to (C2.sym_links_of d) resp reqs c bs =
+    (reqs ++ [c], if is_good x then (c, c) :: bs else bs, if is_good x then Some c else None).
+Proof. exact PC.fetch_step_refines_c02_l. Qed.
+Print Assumptions fetch_step_refines_c02.
+
+(* (3) retry_converges against the independent specification: after ANY history of syncs of
+   head h, the fault-free retry leaves the latest sync and the stored blocks that C01's
+   sync_ad_chain_meets_spec gives for SyncAdChain of that head on the INITIAL state (first
+   conjunct: that right-hand side, instantiated): the initial store plus
+   segment ch head latest0 -- "the same stored blocks as a run in which no fault occurred",
+   stated against [segment] *)
+Theorem retry_converges_to_c01_spec : forall extra ch pub cfg w seg S0 L0 h ops r,
+  P4.wf_world w -> Forall (P4.wf_op w h) ops -> P4.retry_ok w h r ->
+  C1.chain_wf C1.EPrev extra ch = true -> in_range ch h -> L0 <= length ch ->
+  Forall (in_range ch) S0 ->
+  C1.c_strict cfg = true -> C1.c_hook cfg = C1.HNominate ->
+  C1.c_ads_depth cfg = 0%Z -> C1.c_first_depth cfg = 0%Z ->
+  let sg := C1.segment ch (cid_of ch h) (stop_of ch L0) None in
+  C1.avail pub (cids ch S0) sg = true ->
+  let st1 := fst (C4.step C4.fx_fixed w seg r (C4.run C4.fx_fixed w seg ops (C4.init S0 L0))) in
+  let o := C1.sync_ad_chain (C1.chain_world C1.EPrev extra ch pub) cfg (c01_call (cid_of ch h)) (c01_state ch S0 L0) in
+  let moved := negb (L0 =? h) in
+  o = C1.CO (C1.ROk (cid_of ch h)) sg (C1.missing (cids ch S0) sg)
+            (if moved then Some (cid_of ch h, length sg) else None)
+            (C1.ST (if moved then Some (cid_of ch h) else stop_of ch L0)
+                   (rev (C1.missing (cids ch S0) sg) ++ cids ch S0)) /\
+  stop_of ch (C4.s_latest st1) = C1.s_latest (C1.r_state o) /\
+  (forall c, In c (cids ch (C4.s_store st1)) <-> In c (C1.s_store (C1.r_state o))) /\
+  (forall c, In c (cids ch (C4.s_store st1)) <-> In c (cids ch S0) \/ In c sg).
+Proof. exact PC.retry_converges_to_c01_spec_l. Qed.
+Print Assumptions retry_converges_to_c01_spec.
